@@ -400,12 +400,10 @@ func GenBulkHistory(seed int64, n int) []Req {
 			rq.Els = append(rq.Els, op)
 			rq.Now = op.Now
 		}
-		// one instant per request; recompute the abstract input ids (they ignore `now`)
+		// one instant per request (the abstract input ids of the generator ignore `now`; nothing else of an
+		// element may be altered here, or equal ids would no longer mean equal inputs)
 		for j := range rq.Els {
 			rq.Els[j].Now = rq.Now
-			if rq.Els[j].Ts > rq.Now+3 {
-				rq.Els[j].Ts = rq.Now
-			}
 		}
 		out = append(out, rq)
 	}
